@@ -5,7 +5,7 @@ package types
 
 // Genesis validation cross-checks supplies against balances with Go maps; it reads no state (assumed: no effect;
 // InitGenesis relies on nothing it establishes)
-//@ func ValidateGenesis
+//@ func ValidateGenesis(data)
 //@   property C12
 //@   trusted
 //@   returns err
